@@ -237,4 +237,83 @@ theorem npAssign_exact (xs : List Row) (m k : Nat) (items : List Row) (hk : item
   have : m + k - m = k := by omega
   simp [this]
 
+/-! ### slice assignment -/
+
+
+theorem clampIdx_spec (n : Nat) (i : Int) :
+    (i < 0 → ((Py.clampIdx n i : Nat) : Int) = max (i + n) 0) ∧ (0 ≤ i → ((Py.clampIdx n i : Nat) : Int) = min i n) := by
+  unfold Py.clampIdx
+  constructor
+  · intro h
+    simp only [h, if_true]
+    split <;> omega
+  · intro h
+    have : ¬ i < 0 := by omega
+    simp only [this, if_false]
+    split <;> omega
+
+/-- the stop bound `__setitem__(slice)` computes -/
+def stopOf (e : Option Int) (start1 : Int) (k : Nat) (idx : Int) : Int :=
+  match e with
+  | none => start1 + (k : Int)
+  | some x => min (if x < 0 then max ((idx + 1) + x) 0 else x) (idx + 1)
+
+/-- numeric facts about the bounds `__setitem__(slice)` computes, for an assignment of as many rows as the
+    list slice holds (`N` logical length, `L` backing length, `idx = N - 1`) -/
+theorem setSlice_bounds (N L : Nat) (idx : Int) (hc : (N : Int) = idx + 1) (hn : N ≤ L) (s e : Option Int) (k : Nat)
+    (hk : k = Py.stopIdx N e - Py.startIdx N s) (start1 stop2 : Int)
+    (h1 : start1 = if s.getD 0 < 0 then max ((idx + 1) + s.getD 0) 0 else s.getD 0)
+    (h2 : stop2 = stopOf e start1 k idx) :
+    Py.clampIdx L stop2 - Py.clampIdx L start1 = k ∧
+    (k = 0 ∨ (Py.clampIdx L start1 = Py.startIdx N s ∧ Py.startIdx N s + k ≤ N)) := by
+  obtain ⟨c1a, c1b⟩ := clampIdx_spec L start1
+  obtain ⟨c2a, c2b⟩ := clampIdx_spec L stop2
+  cases s with
+  | none =>
+    simp only [Option.getD_none] at h1
+    have hs0 : start1 = 0 := by rw [h1]; simp
+    cases e with
+    | none =>
+      simp only [Py.startIdx, Py.stopIdx, stopOf] at hk h2 ⊢
+      omega
+    | some x =>
+      obtain ⟨d1, d2⟩ := clampIdx_spec N x
+      simp only [Py.startIdx, Py.stopIdx, stopOf] at hk h2 ⊢
+      by_cases hx : x < 0
+      · simp only [hx, if_true] at h2; have := d1 hx; omega
+      · simp only [hx, if_false] at h2; have := d2 (by omega); omega
+  | some y =>
+    obtain ⟨f1, f2⟩ := clampIdx_spec N y
+    simp only [Option.getD_some] at h1
+    cases e with
+    | none =>
+      simp only [Py.startIdx, Py.stopIdx, stopOf] at hk h2 ⊢
+      by_cases hy : y < 0
+      · simp only [hy, if_true] at h1; have := f1 hy; omega
+      · simp only [hy, if_false] at h1; have := f2 (by omega); omega
+    | some x =>
+      obtain ⟨d1, d2⟩ := clampIdx_spec N x
+      simp only [Py.startIdx, Py.stopIdx, stopOf] at hk h2 ⊢
+      by_cases hy : y < 0 <;> by_cases hx : x < 0
+      · simp only [hy, hx, if_true] at h1 h2; have := f1 hy; have := d1 hx; omega
+      · simp only [hy, hx, if_true, if_false] at h1 h2; have := f1 hy; have := d2 (by omega); omega
+      · simp only [hy, hx, if_true, if_false] at h1 h2; have := f2 (by omega); have := d1 hx; omega
+      · simp only [hy, hx, if_false] at h1 h2; have := f2 (by omega); have := d2 (by omega); omega
+
+
+def startOf (s : Option Int) (idx : Int) : Int :=
+  if s.getD 0 < 0 then max ((idx + 1) + s.getD 0) 0 else s.getD 0
+
+theorem setSlice_unfold (a : DynArray) (s e : Option Int) (items : List Row) :
+    a.setSlice s e items =
+      (match npAssign a.array (startOf s a.index) (stopOf e (startOf s a.index) items.length a.index) items with
+       | some arr => .ok { a with array := arr }
+       | none => .error .ValueError) := by
+  unfold DynArray.setSlice stopOf startOf
+  cases e <;> rfl
+
+theorem clampIdx_le (n : Nat) (i : Int) : Py.clampIdx n i ≤ n := by
+  unfold Py.clampIdx; split <;> split <;> omega
+
+
 end Jesse.DynArray
